@@ -5,6 +5,7 @@ import itertools
 import canon_common as cc
 import lib
 import urlgen
+import urlrt
 
 ID = "C01"
 LEAN_MODULE = "UralModel.Props.C01"
@@ -56,6 +57,7 @@ UNPROVED = (
     "the printed URL is CPython's urlsplit (oracle re-parses the real output)"
 )
 OPTS = [(False, False), (True, False), (False, True), (True, True)]
+DPS = ["https", "https", "http", "ftp", "https://", "wss:"]
 
 
 def _mk(parts, quoted, sf, dp="https"):
@@ -80,11 +82,15 @@ def cases(rng, tier):
     for p in urlgen.component_sweep(1 if tier == "quick" else 2):
         for q, sf in OPTS:
             yield _mk(p, q, sf)
+    # netloc torture strings (parser/printer round trip streams, harness/urlrt.py)
+    for k, u in enumerate(urlrt.torture(rng, tier)):
+        q, sf = OPTS[k % 4]
+        yield _mk({"raw": u}, q, sf, DPS[k % len(DPS)] if k % 3 == 0 else "https")
     n = 4000 if tier == "quick" else 60000
     for _ in range(n):
         p = urlgen.random_parts(rng)
         q, sf = rng.choice(OPTS)
-        yield _mk(p, q, sf, rng.choice(["https", "https", "http", "ftp", "https://", "wss:"]))
+        yield _mk(p, q, sf, rng.choice(DPS))
 
 
 def _url(case):
@@ -92,11 +98,13 @@ def _url(case):
 
 
 def ops(case):
-    return cc.ops(_url(case), case["quoted"], case["strip_fragment"], case["dp"])
+    a = (_url(case), case["quoted"], case["strip_fragment"], case["dp"])
+    return cc.ops(*a) + urlrt.ops(*a)
 
 
 def impl(case):
-    return cc.impl(_url(case), case["quoted"], case["strip_fragment"], case["dp"])
+    a = (_url(case), case["quoted"], case["strip_fragment"], case["dp"])
+    return cc.impl(*a) + urlrt.impl(*a)
 
 
 def oracle(case):
@@ -109,6 +117,10 @@ def oracle(case):
         return "cleaning raised %s: %s" % (type(e).__name__, e)
     if cc.parse(cleaned) is None:
         return None  # does not parse: outside the property
+    # the hypotheses the theorems make on attempt_to_decode_idna, on the real codec
+    bad = urlrt.puny_laws_failure(urlrt.puny_of(cleaned))
+    if bad:
+        return bad
     try:
         out = canonicalize_url(url, default_protocol=case["dp"], quoted=case["quoted"], strip_fragment=case["strip_fragment"])
     except Exception as e:  # noqa
@@ -131,6 +143,23 @@ def oracle(case):
         if not rest.isascii():
             return "canonicalize_url(%r, quoted=True) = %r is not quoted" % (url, out)
     return None
+
+
+def kf_userinfo_brackets(case, failure):
+    """KF-C01-1: a raw '[' or ']' in the userinfo.  CPython's bracket check reads the text
+    between the FIRST '[' of the netloc and the next ']', wherever they are: brackets in the
+    userinfo shield the host's own brackets from the check (or are themselves checked as an
+    address), and any change canonicalize_url makes to the userinfo (escaping the brackets in
+    quoted mode, decoding an escape between them) exposes a netloc the parser refuses or
+    reads differently."""
+    from urllib.parse import urlsplit
+
+    try:
+        r = urlsplit(cc.clean_impl(_url(case), case["dp"]))
+    except Exception:  # noqa
+        return False
+    ui = r.netloc.rpartition("@")[0]
+    return "[" in ui or "]" in ui
 
 
 def nontrivial(case):
